@@ -26,6 +26,8 @@ def run(ctx):
     tp.compact_typestate(rep, 'R01.c', prog, cg)
     tp.long_form_id_becomes_context(rep, 'R01.c', prog, cg)
     tp.compact_bool_element(rep, 'R01.b', prog, cg)
+    import thrift_pairs as tp_m
+    tp_m.map_header_order(rep, 'R01.m', prog, cg)
     tp.writers_do_not_overflow(rep, 'R01.o', prog, cg)
     import c03
     c03.ttype_byte_conversion(rep, 'R01.t', prog)
